@@ -323,7 +323,26 @@ func parsePlan(s string) *planWire {
 	return p
 }
 
+func inList(l []int, k int) bool {
+	for _, x := range l {
+		if x == k {
+			return true
+		}
+	}
+	return false
+}
+
+func (c chunk) zero() bool {
+	return c.ID == "" && c.Seq == 0 && len(c.Data) == 0 && c.Text == "" && c.Script == "" && c.Tag == ""
+}
+
 func (b *Scripted) reply(id string, k int, p *planWire) proto.Message {
+	if inList(p.Empty, k) {
+		return chunk{}.msg() // encodes to zero bytes
+	}
+	if inList(p.Tiny, k) {
+		return chunk{Seq: int32(k + 1)}.msg() // two bytes
+	}
 	c := chunk{ID: id, Seq: int32(k), Tag: b.Tag, Text: fmt.Sprintf("reply-%d", k)}
 	if p.BigRep == k {
 		c.Data = bigPayload(k)
@@ -347,7 +366,7 @@ func (b *Scripted) Unary(ctx context.Context, md protoreflect.MethodDescriptor, 
 	if md.Input().FullName() != chunkMD.FullName() {
 		return nil, status.Error(codes.Unimplemented, "proxy engine: method not scripted")
 	}
-	inv, id, attached, _ := b.begin(ctx, md)
+	inv, id, attached, metaPlan := b.begin(ctx, md)
 	defer func() {
 		inv.set(func() { inv.Finished, inv.State = true, "done" })
 		close(inv.done)
@@ -359,16 +378,20 @@ func (b *Scripted) Unary(ctx context.Context, md protoreflect.MethodDescriptor, 
 		}
 		id = c.ID
 	}
+	planSrc := c.Script
+	if metaPlan != "" {
+		planSrc = metaPlan // plan-in-metadata script: the request may be empty
+	}
 	inv.set(func() {
 		inv.Recv = append(inv.Recv, c.sum(id))
 		inv.EOFAfter = 1 // a unary handler runs after the complete request has arrived
 	})
-	p := parsePlan(c.Script)
+	p := parsePlan(planSrc)
 	if err := finalErr(p); err != nil {
 		return nil, err
 	}
 	inv.set(func() { inv.Sent++ })
-	return b.reply(c.ID, 0, p), nil
+	return b.reply(id, 0, p), nil
 }
 
 func errClass(err error) string {
@@ -515,6 +538,9 @@ func (b *Scripted) runSteps(p *planWire, id string, single bool, recv func(strin
 					break
 				}
 				echo := chunk{ID: c.ID, Seq: c.Seq, Tag: b.Tag, Text: "echo:" + c.Text, Data: c.Data}
+				if c.zero() {
+					echo = chunk{} // an empty message is answered by an empty one
+				}
 				if !send(echo.msg()) {
 					return status.Error(codes.Aborted, "send failed")
 				}
